@@ -115,6 +115,15 @@ fn json_escape<'a>(s: &'a str) -> Cow<'a, str> {
 fn value_to_json(value: &DataValue) -> String {
     match value {
         DataValue::String(s) => format!("\"{}\"", json_escape(s)),
+        DataValue::Datetime(d) => format!("\"{}\"", d.to_rfc3339()),
+        DataValue::List(values) => format!(
+            "[{}]",
+            values
+                .iter()
+                .map(|v| value_to_json(v))
+                .collect::<Vec<_>>()
+                .join(", ")
+        ),
         x => x.to_string(),
     }
 }
